@@ -107,8 +107,16 @@ def oracle(r):
         bad.append(("C09:odd", f"observations before the first step: {r['first']}"))
     handler_calls = {}
     torn = False
+    cancelled_at_birth = set()
     for i, s in enumerate(r["steps"]):
+        if s["gate"][0] == "SpawnCancel" and any(o[0] == "Spawned" and o[1] == s["gate"][6] for o in s["obs"]):
+            cancelled_at_birth.add(s["gate"][6])
         for o in s["obs"]:
+            if o[0] == "Seg" and o[1] in cancelled_at_birth:
+                # cancel() on the handle straight after the spawn, before the task was first scheduled: the task is
+                # cancelled all the same -- it never gets past its first checkpoint
+                bad.append(("C09:cancel-ignored", f"step {i}: task {o[1]} was cancelled through its handle straight "
+                            f"after it had been spawned and went on running all the same"))
             if o[0] == "Spawned":
                 spawned.add(o[1])
                 if not o[2]:
